@@ -159,7 +159,7 @@ def r_add_scan(model, rep, tier):
             msg = "an identity collision must raise ValueError"
         if ok:
             # gate
-            gts = [g for g in tuple(e.guards) + tuple(refusal_ev.guards) if facts.gate_term_value(g[0], (1, 1)) is not None]
+            gts = [g for g in tuple(e.guards) + tuple(refusal_ev.guards) if facts.is_pure_gate(g[0])]
             gts = [g for i_, g in enumerate(gts) if g not in gts[:i_]]
             grid = facts.version_grid(tier)
             ok = len(gts) == 1 and all((facts.gate_term_value(gts[0][0], v_) == gts[0][1]) == (v_ >= (1, 1)) for v_ in grid)
@@ -186,7 +186,7 @@ def r_fresh_enforces(model, rep, tier, rule_id="R-ADD-SCAN"):
     for ev in cx.events:
         if ev.kind == "raise" or (ev.kind == "bind" and ev.extra == "inlined-return"):
             for g in ev.guards:
-                if facts.gate_term_value(g[0], (1, 1)) is not None and g not in gates \
+                if facts.is_pure_gate(g[0]) and g not in gates \
                         and any(e2.kind == "call" and e2.value[1] == ("global", "identify_image") and g in e2.guards for e2 in cx.events):
                     gates.append(g)
     init = model.own_method("images.Images", "__init__")
@@ -234,7 +234,7 @@ def r_add_insertion(model, rep, rule_id="R-ADD-SCAN", after=None):
                 return None
         return list(reversed(keys))
     ok = len(ins) == 1 and ins[0].value[2] == (img,) and cell_keys(ins[0].value[1][1]) == [P(cx.params[1]), P(cx.params[2])] \
-        and not [g for g in facts.own_guards(cx, ins[0]) if facts.gate_term_value(g[0], (1, 1)) is None] and not ins[0].loops \
+        and not [g for g in facts.own_guards(cx, ins[0]) if not facts.is_pure_gate(g[0])] and not ins[0].loops \
         and (after is None or ins[0].seq > after)
     rep.ob(rule_id, "Images.add:insertion", ok, site=cx.site(f.node),
            msg="" if ok else "the image given must be inserted exactly once, unconditionally, after the scan, into images[variant][arch]")
@@ -346,22 +346,38 @@ def r_load_via_add(model, rep):
               and ev.value[1][2] in ("add", "_add_1_1") and len(ev.loops) >= 3
               and T.contains(T.norm_items(ev.loops[-1][1]), lambda x: x == tab)]
     grid = facts.version_grid("quick")
-    ok = bool(routes) and all(sum(1 for r in routes if facts.active_at(r, v)) == 1 for v in grid) \
-        and all(not facts.non_gate_guards(r) for r in routes)
+    has_helper = "_add_1_1" in model.cls("images.Images").methods
+    if has_helper:
+        ok = bool(routes) and all(sum(1 for r in routes if facts.active_at(r, v)) == 1 for v in grid) \
+            and all(not facts.non_gate_guards(r) for r in routes)
+    else:
+        # the legacy converter folded into the loop: per version and per case (the record's arch is 'src' / is not) the image
+        # reaches add() -- once for a binary arch, in a loop over the document's arches for 'src'
+        ok = bool(routes)
+        if ok:
+            arch_el = ("elem", routes[0].loops[1][1], routes[0].loops[1][0])
+            issrc = ("cmp", ("==",), (arch_el, ("const", "src")))
+            for v in grid:
+                for b_ in (True, False):
+                    sc = facts.at_version(cx, v, atoms={issrc: b_})
+                    act = [r for r in routes if sc.holds(r) is not False]
+                    ok = ok and len(act) == 1 and (len(act[0].loops) == 3 or (b_ and v <= (1, 1)))
     # no break/continue/return inside the record loops
-    lids = set(l[0] for r in routes for l in r.loops)
-    cut = [ev for ev in cx.events if ev.kind in ("break", "continue", "return") and set(l[0] for l in ev.loops) & lids]
+    lids = set(l[0] for r in routes for l in r.loops[:3])
+    cut = [ev for ev in cx.events if ev.kind in ("break", "return") and set(l[0] for l in ev.loops) & lids]
+    cut += [ev for ev in cx.events if ev.kind == "continue" and len(ev.loops) <= 3 and set(l[0] for l in ev.loops) & lids]
     ok = ok and not cut
     rep.ob("R-LOAD-VIA-ADD", "Images.deserialize", ok, site=cx.site(f.node),
            msg="" if ok else "for every header version exactly one of self.add / self._add_1_1 must be called, unconditionally, for every "
                              "record of payload/images")
-    g = model.own_method("images.Images", "_add_1_1")
-    gcx = facts.fctx(model, g)
-    S = P(gcx.selfname)
-    adds = [ev for ev in gcx.events if ev.kind == "call" and ev.value[1] == ("attr", S, "add")]
-    ok = len(adds) == 2 and all(ev.value[2][2] == P(gcx.params[4]) for ev in adds)
-    rep.ob("R-LOAD-VIA-ADD", "Images._add_1_1", ok, site=gcx.site(g.node),
-           msg="" if ok else "_add_1_1 must file the image through self.add() on both branches")
+    if has_helper:
+        g = model.own_method("images.Images", "_add_1_1")
+        gcx = facts.fctx(model, g)
+        S = P(gcx.selfname)
+        adds = [ev for ev in gcx.events if ev.kind == "call" and ev.value[1] == ("attr", S, "add")]
+        ok = len(adds) == 2 and all(ev.value[2][2] == P(gcx.params[4]) for ev in adds)
+        rep.ob("R-LOAD-VIA-ADD", "Images._add_1_1", ok, site=gcx.site(g.node),
+               msg="" if ok else "_add_1_1 must file the image through self.add() on both branches")
 
 
 def r_arch_guards_dominate(model, rep):
@@ -511,26 +527,55 @@ def r_arch_guard(model, rep):
 
 
 def r_src_route(model, rep):
-    # images <= 1.1
-    f = model.own_method("images.Images", "_add_1_1")
-    cx = facts.fctx(model, f)
-    S = P(cx.selfname)
-    data, variant, arch, image = [P(x) for x in cx.params[1:5]]
+    # images <= 1.1: the converter, in its own method or folded into the reader's record loop
+    if "_add_1_1" in model.cls("images.Images").methods:
+        f = model.own_method("images.Images", "_add_1_1")
+        cx = facts.fctx(model, f)
+        S = P(cx.selfname)
+        data, variant, arch, image = [P(x) for x in cx.params[1:5]]
+        base = 0
+        adds = [ev for ev in cx.events if ev.kind == "call" and ev.value[1] == ("attr", S, "add")]
+        tab = ("sub", ("sub", data, ("const", "payload")), ("const", "images"))
+    else:
+        f = model.own_method("images.Images", "deserialize")
+        cx = facts.fctx(model, f)
+        S = P(cx.selfname)
+        tab = ("sub", ("sub", P(cx.params[1]), ("const", "payload")), ("const", "images"))
+        adds = [ev for ev in cx.events if ev.kind == "call" and ev.value[1] == ("attr", S, "add") and len(ev.loops) >= 3
+                and facts.active_at(ev, (1, 0))]
+        base = 3
+        if not adds:
+            raise AnalysisError("Images.deserialize: no add() call is active for format 1.0 (legacy converter not found)")
+        variant = ("elem", adds[0].loops[0][1], adds[0].loops[0][0])
+        arch = ("elem", adds[0].loops[1][1], adds[0].loops[1][0])
+        image = adds[0].value[2][2] if len(adds[0].value[2]) == 3 else None
     issrc = ("cmp", ("==",), (arch, ("const", "src")))
-    adds = [ev for ev in cx.events if ev.kind == "call" and ev.value[1] == ("attr", S, "add")]
-    moved = [ev for ev in adds if ev.loops]
-    plain = [ev for ev in adds if not ev.loops]
+    moved = [ev for ev in adds if len(ev.loops) > base]
+    plain = [ev for ev in adds if len(ev.loops) == base]
     ok, msg = len(moved) == 1 and len(plain) == 1, "expected one re-filing loop and one plain add"
     if ok:
         m, p = moved[0], plain[0]
-        it = ("sub", ("sub", ("sub", data, ("const", "payload")), ("const", "images")), variant)
-        el = ("elem", it, m.loops[0][0])
+        it = ("sub", tab, variant)
+        el = ("elem", it, m.loops[base][0])
         skip = ("cmp", ("==",), (el, ("const", "src")))
-        ok = m.loops[0][1] == it and m.value[2] == (variant, el, image) \
-            and facts.guard_atoms(m.guards) == {facts.canon_guard((issrc, True)), facts.canon_guard((skip, False))}
+        def gate_free(ev):
+            # the conditions besides the version gate, evaluated where the legacy converter is active (format 1.0)
+            out = []
+            for g in ev.guards:
+                if facts.is_pure_gate(g[0]):
+                    continue
+                if facts.mentions_version(g[0]):
+                    t = facts.at_version(cx, (1, 0)).term(g[0])
+                    t = T.select(t, lambda x: None)
+                    out.append((T.degate(t), g[1]))
+                else:
+                    out.append(g)
+            return out
+        ok = m.loops[base][1] == it and m.value[2] == (variant, el, image) \
+            and facts.guard_atoms(gate_free(m)) == {facts.canon_guard((issrc, True)), facts.canon_guard((skip, False))}
         msg = "a 'src' image must be re-filed under every architecture of the same variant in the document except 'src' itself"
         if ok:
-            ok = p.value[2] == (variant, arch, image) and facts.guard_atoms(p.guards) == {facts.canon_guard((issrc, False))}
+            ok = p.value[2] == (variant, arch, image) and facts.guard_atoms(gate_free(p)) == {facts.canon_guard((issrc, False))}
             msg = "a binary-arch image must be filed under its own (variant, arch)"
     rep.ob("R-SRC-ROUTE", "Images._add_1_1", ok, site=cx.site(f.node), msg="" if ok else msg)
     # rpms 0.3
